@@ -160,11 +160,11 @@ CHECKS = {
     "C19": dict(
         text="Coq theorems C19_lib_roundtrip (every library record written by the serializer is read back by the pre-parser with the same debug name, debug id, paths, name, arch and code id), "
              "C19_no_code_id_still_known (a library without build id is not dropped), C19_known (after pre-parsing a profile, a request naming any of its libraries by (debugName, debugId) gets the recorded "
-             "binary path as first candidate and the recorded debug path), C19_code_id_refuted (witnesses for finding F-C19). The serializer's key/field table, the pre-parser's struct and its required "
+             "binary path as first candidate and the recorded debug path), C19_code_id_codec (printing then parsing a code id gives it back, for EVERY PE id, Mach-O UUID and ELF build id outside the ambiguous class) with C19_lib_roundtrip_unconditional, C19_code_id_refuted (witnesses for finding F-C19). The serializer's key/field table, the pre-parser's struct and its required "
              "fields are TRANSLATED from the Rust sources on every run (tools/consts.py -> Generated/Consts.v), so a renamed, dropped or newly required field breaks the proofs. Tied end to end: generated "
              "perf.data mapping ELF files -> samply import (.json/.json.gz) -> samply load -> /symbolicate/v5 for every library and used address, compared with direct lookups; plus a code-id codec differential.",
         note="Trusted: Coq kernel; tools/consts.py (regex translation of library_info.rs / profile_json_preparse.rs); the debugid crate's breakpad codec (section hypothesis); perf.data writer; h_symbols. "
-             "The code-id round trip is a hypothesis (code_id_ok) of C19_lib_roundtrip, evaluated per case, not proved in general; it is false for the class of F-C19 (open known finding). "
+             "The code-id codec is proved over the byte-level model of CodeId::from_str / Display (Model/CodeIdStr.v, LibIdentity.v), itself tied by the codec differential; it fails exactly on the class of F-C19 (open known finding). "
              "'Same function as a direct lookup' composes with C05/C06 and is observed end to end, not proved.",
         technique="Coq proof over a model whose field tables are regenerated from the source (translator) + end-to-end and codec correspondence runs evaluated by vm_compute",
         design="4/C19"),
